@@ -393,6 +393,37 @@ func runC24(c *Ctx) {
 
 func runC26(c *Ctx) {
 	p := c.P
+	savedCoversWrittenRule(c, "saved-covers-written", func(pp string) bool { return pp == pkgPath("mem/vm") }, 1)
+	// lookups are read-only: their result is a function of the table's content alone
+	for _, nm := range [][2]string{{"pageTableImpl", "Find"}, {"pageTableImpl", "ReverseLookup"}, {"processTable", "find"}, {"processTable", "reverseLookup"}} {
+		f := c.fn("read-only-lookup", "mem/vm", nm[0], nm[1])
+		if f == nil {
+			continue
+		}
+		root := p.SSAFunc(f)
+		bad := ""
+		for g := range p.ModCG().Reach([]*ssa.Function{root}, func(h *ssa.Function) bool { return pkgOfFn(h) == pkgPath("mem/vm") }) {
+			if g != root && g.Signature.Recv() != nil && (g.Name() == "getTable") {
+				continue // creates an empty per-process table on demand (no page content)
+			}
+			for _, b := range g.Blocks {
+				for _, in := range b.Instrs {
+					switch x := in.(type) {
+					case *ssa.Store:
+						if stateRooted(x.Addr) {
+							bad += p.Rel(x.Pos()) + " stores " + shortKey(VKey(x.Addr)) + "; "
+						}
+					case *ssa.MapUpdate:
+						if stateRooted(x.Map) {
+							bad += p.Rel(x.Pos()) + " updates a map; "
+						}
+					}
+				}
+			}
+		}
+		c.Check(bad == "", "read-only-lookup", "mem/vm."+nm[0]+"."+nm[1], p.Decl(f).Pos(), "the lookup writes nothing",
+			"a page-table lookup modifies the table object ("+bad+"): its answer then depends on which lookups were made before, not only on the operations that changed the table — two tables with the same content, or one table before and after a checkpoint, answer differently")
+	}
 	entriesF := c.field("anchors", "mem/vm", "processTable", "entries")
 	mapF := c.field("anchors", "mem/vm", "processTable", "entriesTable")
 	if entriesF == nil || mapF == nil {
